@@ -121,17 +121,23 @@ func init() {
 		"math.archSqrt":  func(fr *frame, args []value) value { return math1(fr, "math.Sqrt", math.Sqrt, args[0]) },
 		// math/bits on concrete operands run natively; symbolic ones are interpreted from SSA
 		// random numbers: every in-range draw
-		"math/rand.Intn":               func(fr *frame, args []value) value { return fr.i.ps.randIntn(args[0], types.Int) },
-		"(*math/rand.Rand).Intn":       func(fr *frame, args []value) value { return fr.i.ps.randIntn(args[1], types.Int) },
-		"math/rand.Int31n":             func(fr *frame, args []value) value { return fr.i.ps.randIntn(args[0], types.Int32) },
-		"(*math/rand.Rand).Int31n":     func(fr *frame, args []value) value { return fr.i.ps.randIntn(args[1], types.Int32) },
-		"(*math/rand.Rand).int31n":     func(fr *frame, args []value) value { return fr.i.ps.randIntn(args[1], types.Int32) },
-		"math/rand.Int63n":             func(fr *frame, args []value) value { return fr.i.ps.randIntn(args[0], types.Int64) },
-		"(*math/rand.Rand).Int63n":     func(fr *frame, args []value) value { return fr.i.ps.randIntn(args[1], types.Int64) },
-		"math/rand.Float64":            func(fr *frame, args []value) value { return fr.i.ps.randFloat() },
-		"(*math/rand.Rand).Float64":    func(fr *frame, args []value) value { return fr.i.ps.randFloat() },
-		"math/rand.ExpFloat64":         func(fr *frame, args []value) value { return fr.i.ps.randExp() },
-		"(*math/rand.Rand).ExpFloat64": func(fr *frame, args []value) value { return fr.i.ps.randExp() },
+		"math/rand.Intn":               func(fr *frame, args []value) value { return fr.i.ps.randIntn(nil, args[0], types.Int) },
+		"(*math/rand.Rand).Intn":       func(fr *frame, args []value) value { return fr.i.ps.randIntn(args[0], args[1], types.Int) },
+		"math/rand.Int31n":             func(fr *frame, args []value) value { return fr.i.ps.randIntn(nil, args[0], types.Int32) },
+		"(*math/rand.Rand).Int31n":     func(fr *frame, args []value) value { return fr.i.ps.randIntn(args[0], args[1], types.Int32) },
+		"(*math/rand.Rand).int31n":     func(fr *frame, args []value) value { return fr.i.ps.randIntn(args[0], args[1], types.Int32) },
+		"math/rand.Int63n":             func(fr *frame, args []value) value { return fr.i.ps.randIntn(nil, args[0], types.Int64) },
+		"(*math/rand.Rand).Int63n":     func(fr *frame, args []value) value { return fr.i.ps.randIntn(args[0], args[1], types.Int64) },
+		"math/rand.Float64":            func(fr *frame, args []value) value { return fr.i.ps.randFloat(nil) },
+		"(*math/rand.Rand).Float64":    func(fr *frame, args []value) value { return fr.i.ps.randFloat(args[0]) },
+		"math/rand.ExpFloat64":         func(fr *frame, args []value) value { return fr.i.ps.randExp(nil) },
+		"(*math/rand.Rand).ExpFloat64": func(fr *frame, args []value) value { return fr.i.ps.randExp(args[0]) },
+		"math/rand.Int63":              func(fr *frame, args []value) value { return fr.i.ps.randWord(nil, types.Int64, 63) },
+		"(*math/rand.Rand).Int63":      func(fr *frame, args []value) value { return fr.i.ps.randWord(args[0], types.Int64, 63) },
+		"math/rand.Int":                func(fr *frame, args []value) value { return fr.i.ps.randWord(nil, types.Int, 63) },
+		"(*math/rand.Rand).Int":        func(fr *frame, args []value) value { return fr.i.ps.randWord(args[0], types.Int, 63) },
+		"math/rand.Int31":              func(fr *frame, args []value) value { return fr.i.ps.randWord(nil, types.Int32, 31) },
+		"(*math/rand.Rand).Int31":      func(fr *frame, args []value) value { return fr.i.ps.randWord(args[0], types.Int32, 31) },
 		"(*os.File).WriteString": func(fr *frame, args []value) value {
 			// in-memory sink (cmd harnesses): the text is kept for sxOutput()
 			fr.i.ps.out = append(fr.i.ps.out, strElems(args[1])...)
@@ -151,14 +157,31 @@ func init() {
 			} else {
 				ps.lastSeed, ps.lastSeedSym, ps.seeded = args[0], false, true
 			}
+			ps.genSeed(nil, args[0])
 			return nil
 		},
-		"(*math/rand.Rand).Seed":       extNop,
-		"math/rand.globalRand":         func(fr *frame, args []value) value { return (*value)(nil) },
-		"math/rand.New":                func(fr *frame, args []value) value { v := value(structure{}); return &v },
-		"math/rand.NewSource":          func(fr *frame, args []value) value { return iface{} },
+		"(*math/rand.Rand).Seed": func(fr *frame, args []value) value {
+			fr.i.ps.genSeed(args[0], args[1])
+			return nil
+		},
+		"math/rand.globalRand": func(fr *frame, args []value) value { return (*value)(nil) },
+		"math/rand.New": func(fr *frame, args []value) value {
+			// rand.New(rand.NewSource(x)): a private generator whose stream is a function of x
+			v := value(structure{})
+			p := &v
+			ps := fr.i.ps
+			if x, ok := ps.side["rand.NewSource"]; ok && ps.seededRand {
+				ps.genSeed(p, x.(value))
+				delete(ps.side, "rand.NewSource")
+			}
+			return p
+		},
+		"math/rand.NewSource": func(fr *frame, args []value) value {
+			fr.i.ps.side["rand.NewSource"] = args[0]
+			return iface{}
+		},
 		"github.com/fredericlemoine/gostats.Exp": func(fr *frame, args []value) value {
-			return fr.i.ps.randExp()
+			return fr.i.ps.randExp(nil)
 		},
 		// sorting
 		"sort.Slice":       func(fr *frame, args []value) value { return extSortSlice(fr, args) },
@@ -776,12 +799,81 @@ func math1(fr *frame, name string, f func(float64) float64, x value) value {
 
 // ---- random draws ----
 
-func (ps *pathState) randIntn(n value, k types.BasicKind) value {
+// ---- seeded generators (option "seeded-rand") ----
+//
+// A generator is a state term; a draw is an uninterpreted function of the
+// state (and of the range), and moves the state on by another uninterpreted
+// function: the k-th draw after Seed(s) is a function of s and of the calls
+// made since - nothing else. rand.New(rand.NewSource(x)) starts a private
+// stream that is a function of x. A generator that was never seeded has an
+// arbitrary state.
+
+type genKey struct{ p *value }
+
+func genOf(recv value) genKey {
+	if p, ok := recv.(*value); ok {
+		return genKey{p}
+	}
+	return genKey{nil}
+}
+
+func (ps *pathState) genSeed(recv value, seed value) {
+	if !ps.seededRand {
+		return
+	}
+	ps.side[genOf(recv)] = ps.ts.UF("rnd_seed", bvSort(64), ps.termOf(seed, 0))
+}
+
+func (ps *pathState) genState(recv value) *Term {
+	k := genOf(recv)
+	if st, ok := ps.side[k]; ok {
+		return st.(*Term)
+	}
+	st := ps.newInput("generator_state", "env", bvSort(64))
+	ps.side[k] = st
+	return st
+}
+
+// genDraw: the next value of the generator's stream, of sort res.
+func (ps *pathState) genDraw(recv value, kind string, rng *Term, res Sort) *Term {
+	st := ps.genState(recv)
+	args := []*Term{st}
+	if rng != nil {
+		args = append(args, rng)
+	}
+	v := ps.ts.UF("rnd_val_"+kind, res, args...)
+	ps.side[genOf(recv)] = ps.ts.UF("rnd_next_"+kind, bvSort(64), args...)
+	ps.nrand++
+	return v
+}
+
+// randWord: rand.Int63 / Int / Int31 (non-negative, bits wide).
+func (ps *pathState) randWord(recv value, k types.BasicKind, bits int) value {
+	w, _ := kindBits(k)
+	var r *Term
+	if ps.seededRand {
+		r = ps.genDraw(recv, fmt.Sprintf("word%d_%d", w, bits), nil, bvSort(w))
+	} else {
+		r = ps.newInput(fmt.Sprintf("rand%d", ps.nrand), "rand", bvSort(w))
+		ps.nrand++
+	}
+	if bits < w {
+		ps.addPC(ps.ts.BvCmp(OpBvUlt, r, ps.ts.BV(uint64(1)<<uint(bits), w)))
+	}
+	return mkval(k, r)
+}
+
+func (ps *pathState) randIntn(recv value, n value, k types.BasicKind) value {
 	w, _ := kindBits(k)
 	tn := ps.termOf(n, 0)
 	zero := ps.ts.BV(0, w)
 	if ps.decide(ps.ts.BvCmp(OpBvSle, tn, zero)) {
 		panic(targetPanic{iface{types.Typ[types.String], "invalid argument to Intn"}})
+	}
+	if ps.seededRand {
+		r := ps.genDraw(recv, fmt.Sprintf("intn%d", w), tn, bvSort(w))
+		ps.addPC(ps.ts.And(ps.ts.BvCmp(OpBvSle, zero, r), ps.ts.BvCmp(OpBvSlt, r, tn)))
+		return mkval(k, r)
 	}
 	r := ps.newInput(fmt.Sprintf("rand%d", ps.nrand), "rand", bvSort(w))
 	ps.nrand++
@@ -791,7 +883,12 @@ func (ps *pathState) randIntn(n value, k types.BasicKind) value {
 	return mkval(k, r)
 }
 
-func (ps *pathState) randFloat() value {
+func (ps *pathState) randFloat(recv value) value {
+	if ps.seededRand {
+		r := ps.genDraw(recv, "float", nil, sortReal)
+		ps.addPC(ps.ts.And(ps.ts.RCmp(OpRLe, ps.ts.RealF(0), r), ps.ts.RCmp(OpRLt, r, ps.ts.RealF(1))))
+		return mkval(types.Float64, r)
+	}
 	r := ps.newInput(fmt.Sprintf("randf%d", ps.nrand), "randf", sortReal)
 	ps.nrand++
 	ps.addPC(ps.ts.And(ps.ts.RCmp(OpRLe, ps.ts.RealF(0), r), ps.ts.RCmp(OpRLt, r, ps.ts.RealF(1))))
@@ -894,7 +991,12 @@ func simplestBetween(a, b *big.Rat) *big.Rat {
 	return new(big.Rat).Add(flr, new(big.Rat).Inv(inner))
 }
 
-func (ps *pathState) randExp() value {
+func (ps *pathState) randExp(recv value) value {
+	if ps.seededRand {
+		r := ps.genDraw(recv, "exp", nil, sortReal)
+		ps.addPC(ps.ts.RCmp(OpRLt, ps.ts.RealF(0), r))
+		return mkval(types.Float64, r)
+	}
 	r := ps.newInput(fmt.Sprintf("randexp%d", ps.nrand), "randf", sortReal)
 	ps.nrand++
 	ps.addPC(ps.ts.RCmp(OpRLt, ps.ts.RealF(0), r))
